@@ -521,7 +521,20 @@ func (e *e2) installedHandler(reg ssa.CallInstruction, dir string) (ssa.Value, s
 			return
 		}
 		if ev, ok := constInt(args[1]); !ok || ev != want {
-			return
+			// the direction is a parameter of a function shared by both directions: accepted when the call is reached
+			// only under `direction == <this direction>` (a case of a switch on it)
+			if ok {
+				return
+			}
+			guarded := false
+			for _, l := range guardsOf(in.Block()) {
+				if op, x, y, isCmp := l.cmpWith(args[1]); isCmp && op == token.EQL && stripConv(x) == stripConv(args[1]) && isConstInt(y, want) {
+					guarded = true
+				}
+			}
+			if !guarded {
+				return
+			}
 		}
 		if !dominatesInstr(in, reg.(ssa.Instruction)) {
 			return
